@@ -118,6 +118,10 @@ def build(rng, ndefs=None, nuses=None, skeleton=None):
             d.label_md = a + rng.choice(('\n', ' \n', '\n  ', '  \n ', '\t\n', '\n   ')) + b.strip()
         d.dest_nl = rng.random() < 0.12
         d.lazy_tail = rng.random() < 0.4
+        if not d.title and rng.random() < 0.12:
+            d.empty_title = True                    # [l]: /u ""   (also '' and ())
+        if not getattr(d, 'spelled', False) and rng.random() < 0.06:
+            d.dest, d.angle = '', True              # [l]: <>  - an empty destination is a destination
         places = list(lists_of(blocks))
         L, path = rng.choice(places)
         pos = rng.randint(0, len(L))
